@@ -292,6 +292,8 @@ pub struct FsInner {
     pub faulted: bool,
     /// a listing or delete call has been failed by the plan
     pub retention_faulted: bool,
+    /// a `flush` or `sync_all` call has been failed by the plan (the worker gives such a batch up: `no_retry`)
+    pub sync_faulted: bool,
 }
 
 #[derive(Clone)]
@@ -479,7 +481,11 @@ impl io::Write for Handle {
     }
 
     fn flush(&mut self) -> io::Result<()> {
-        self.fs.simple(|_| Ok(()))
+        let r = self.fs.simple(|_| Ok(()));
+        if r.is_err() {
+            self.fs.0.lock().unwrap().sync_faulted = true;
+        }
+        r
     }
 }
 
@@ -491,13 +497,17 @@ impl verif::File for Handle {
 
     fn sync_all(&mut self) -> io::Result<()> {
         let name = self.name.clone();
-        self.fs.simple(|g| {
+        let r = self.fs.simple(|g| {
             if let Some(f) = g.files.get_mut(&name) {
                 let u = std::mem::take(&mut f.unsynced);
                 f.synced.extend_from_slice(&u);
             }
             Ok(())
-        })
+        });
+        if r.is_err() {
+            self.fs.0.lock().unwrap().sync_faulted = true;
+        }
+        r
     }
 }
 
